@@ -309,7 +309,10 @@ def judge_and_report(chk, rows, meta, chunks):
         row, m = byid[rid], meta[rid]
         for v in vs:
             clause, j, what = v[2], v[3], v[4]
-            sig = "%s|%s|pk=%s|mk=%s|cfg=%s" % (clause, what, row["pk"], row["mk"], row["cfg"])
+            pk = row["pk"] + (":" + "+".join(row["mpk"]) if row["pk"] == "comp" else "")
+            sig = "%s|%s|pk=%s|mk=%s" % (clause, what, pk, row["mk"])
+            if clause == "C19.value_objects":
+                sig += "|vo=" + "+".join(sorted({"%s:%s" % (c["kind"], c["op"]) for c in row["cats"] if c["vo"]}))
             combo = row["combos"][j - 1]
             cur = {"".join(c["name"]) + ("#%d" % c["mem"] if row["cfg"] == "comp_overlap" else ""): _show(c, c["ch"][combo[k] - 1])
                    for k, c in enumerate(row["cats"])}
